@@ -125,7 +125,18 @@ impl Block for SymbolSync {
 
         let mut n = 0; // Samples consumed.
         let mut opos = 0; // Current output position.
-        let olen = o.len();
+        // Never write more symbols than also fit in the clock stream, if any.
+        let olen = match out_clock {
+            Some(ref c) => std::cmp::min(o.len(), c.len()),
+            None => o.len(),
+        };
+        if olen == 0 {
+            // `o` is not empty, so it's the clock stream that is full.
+            return Ok(match self.out_clock.as_ref() {
+                Some(c) => BlockRet::WaitForStream(c, 1),
+                None => BlockRet::WaitForStream(&self.dst, 1),
+            });
+        }
         let oslice = o.slice();
         for sample in input.iter() {
             n += 1;
